@@ -866,12 +866,12 @@ def parse_args(
         if k not in ("fg", "bg") and k not in STYLES.keys():
             raise ValueError("Can't apply that transformation")
     if "fg" in kwargs:
-        if kwargs["fg"] in FG_COLORS:
+        if isinstance(kwargs["fg"], str) and kwargs["fg"] in FG_COLORS:
             kwargs["fg"] = FG_COLORS[cast(str, kwargs["fg"])]
         if kwargs["fg"] not in list(FG_COLORS.values()):
             raise ValueError(f"Bad fg value: {kwargs['fg']!r}")
     if "bg" in kwargs:
-        if kwargs["bg"] in BG_COLORS:
+        if isinstance(kwargs["bg"], str) and kwargs["bg"] in BG_COLORS:
             kwargs["bg"] = BG_COLORS[cast(str, kwargs["bg"])]
         if kwargs["bg"] not in list(BG_COLORS.values()):
             raise ValueError(f"Bad bg value: {kwargs['bg']!r}")
